@@ -170,19 +170,21 @@ SimCase(h, p) == LET s == SentFor(h, p)
 LimCase(ls, p) == [mode |-> "limits", hs |-> <<>>, plan |-> p, lims |-> ls, msgs |-> <<>>, sent |-> <<>>, ret |-> <<>>,
                    raised |-> \E i \in DOMAIN p : p[i].cmd = "set" /\
                                  \E j \in DOMAIN ls : ls[j].dev = p[i].obj /\ ls[j].has /\ (p[i].val < ls[j].lo \/ p[i].val > ls[j].hi)]
-\* (TLC compares deeply nested values slowly: the cases are enumerated through pairs of INDICES into sequences of handler
-\* lists / plans / limit sets, so that only small sets and sets of integer pairs have to be normalized)
-HeadSeq == SetToSeq(Heads)
-PlanSeqByLen == [n \in 0..MaxH |-> SetToSeq((IF n <= HA THEN PlansA ELSE {}) \cup (IF n <= HB THEN PlansB ELSE {})
-                                                \cup (IF n <= HC THEN PlansC ELSE {}))]
-PlanSeqFor(i) == PlanSeqByLen[Len(HeadSeq[i])]
-SimInputs == SetToSeq(UNION {{<<i, j>> : j \in 1..Len(PlanSeqFor(i))} : i \in 1..Len(HeadSeq)})
+\* (TLC normalizes big sets of nested values slowly: the cases are enumerated by index arithmetic over sequences of
+\* handler lists of one length / plans / limit sets, so that only those small sets have to be normalized)
+HeadSeqN == [n \in 0..MaxH |-> SetToSeq(HS(n))]
+PlanSeqN == [n \in 0..MaxH |-> SetToSeq(SimPlansFor([i \in 1..n |-> 0]))]      \* SimPlansFor looks at the length only
+SimCasesN(n) == LET H == HeadSeqN[n]
+                    P == PlanSeqN[n]
+                    np == Len(P)
+                IN [k \in 1..(Len(H) * np) |-> SimCase(H[((k - 1) \div np) + 1], P[((k - 1) % np) + 1])]
+RECURSIVE SimCasesFrom(_)
+SimCasesFrom(n) == IF n > MaxH THEN <<>> ELSE SimCasesN(n) \o SimCasesFrom(n + 1)
 LimSetSeq == SetToSeq(LimSets)
 LimPlanSeq == SetToSeq(LimPlans)
-LimInputs == IF LimPlan >= 0 THEN SetToSeq((1..Len(LimSetSeq)) \X (1..Len(LimPlanSeq))) ELSE <<>>
+LimCases == LET np == Len(LimPlanSeq)
+            IN IF LimPlan < 0 THEN <<>>
+               ELSE [k \in 1..(Len(LimSetSeq) * np) |-> LimCase(LimSetSeq[((k - 1) \div np) + 1], LimPlanSeq[((k - 1) % np) + 1])]
 DumpCases ==
-    TLCGet("stats").generated >= 0 /\
-    ndJsonSerialize(IOEnv.CASES_OUT,
-        [k \in 1..Len(SimInputs) |-> SimCase(HeadSeq[SimInputs[k][1]], PlanSeqFor(SimInputs[k][1])[SimInputs[k][2]])]
-        \o [k \in 1..Len(LimInputs) |-> LimCase(LimSetSeq[LimInputs[k][1]], LimPlanSeq[LimInputs[k][2]])])
+    TLCGet("stats").generated >= 0 /\ ndJsonSerialize(IOEnv.CASES_OUT, SimCasesFrom(0) \o LimCases)
 =============================================================================
